@@ -171,7 +171,7 @@ class Conformer:
     """drives the model alongside the explored executions"""
 
     def __init__(self, zoo, cfg, faults=False, n_menu=0, submit_in_nt=False):
-        self.z = desc.make_variant(zoo, desc.variant_for(zoo, cfg))
+        self.z = desc.for_family(zoo, cfg)
         self.cfg = cfg
         self.opts = {'faults': faults, 'n_menu': n_menu, 'submit_in_nt': submit_in_nt}
         self.worlds = {}
@@ -194,6 +194,7 @@ class Conformer:
 
     def run(self, outfile, on_exec, on_state=None):
         """on_exec(x: Execution) is called with x.mtrace/x.mret/x.mworld filled (None when the model failed)"""
+        pending_state = None
         for rec in iterate(outfile):
             if rec[0] == 'S':
                 _, sid, canon, intro = rec
@@ -202,8 +203,10 @@ class Conformer:
                 if sid == 0:
                     self.worlds[0] = self.new_world()
                     self.parent[0] = None
-                if on_state:
-                    on_state(sid, canon, intro, self.worlds.get(sid))
+                    if on_state:
+                        on_state(sid, canon, intro, self.worlds.get(sid))
+                else:
+                    pending_state = (sid, canon, intro)
             elif rec[0] == 'X':
                 x = rec[1]
                 self.result.executions += 1
@@ -229,6 +232,10 @@ class Conformer:
                     self.parent[x.dst] = (x.src, x.op, x.ev, x.rawtape)
                     if x.mworld is not None:
                         self.worlds[x.dst] = x.mworld
+                if pending_state is not None and pending_state[0] == x.dst:
+                    if on_state:
+                        on_state(pending_state[0], pending_state[1], pending_state[2], self.worlds.get(x.dst))
+                    pending_state = None
                 on_exec(x)
             else:
                 d = rec[1]
